@@ -15,7 +15,7 @@ for l in open(f):
             elif op in ('G','k','u'): ops.append((' '.join(t[j:j+2]),True)); j+=2
             elif op in ('!','Q'): ops.append((' '.join(t[j:j+2]),False)); j+=2
             elif op=='C':
-                nf=int(t[j+2],16); p=j+3+2*nf; nb=int(t[p],16); ops.append(('C '+' '.join(t[j+1:p+1+2*nb]),False)); j=p+1+2*nb
+                nf=int(t[j+2],16); p=j+3+2*nf; nb=int(t[p],16); q=p+1+2*nb; nt=int(t[q],16); ops.append(('C '+' '.join(x[:12] for x in t[j+1:q+1+3*nt]),False)); j=q+1+3*nt
             elif op in ('W','Z'): ops.append((op,False)); j+=1
             else: ops.append((op,True)); j+=1
         m=subprocess.run(['/verif/ocaml/_build/driver'],input='x\t'+inp+'\n',stdout=subprocess.PIPE,text=True).stdout.rstrip('\n').split('\t')[1]
